@@ -22,7 +22,9 @@ EWhere == { Where(a, b, p), Where(a, C(5), C(6)), Where(Bin("gt", a, C(1)), b, C
             Bin("add", Where(a, b, p), C(1)),                   \* derived from a where result
             Bin("add", b, Where(a, p, C(5))),                   \* a where result as argument
             Where(a, Where(b, p, C(3)), C(4)),                  \* nested where
-            Pipe(Where(a, b, C(2)), p) }
+            Pipe(Where(a, b, C(2)), p),
+            Where(a, Bin("floordiv", C(4), a), C(7)),           \* guard pattern: the branch not selected cannot be evaluated
+            Where(Bin("lt", a, C(2)), Idx(l, a), C(7)) }
 EAll == EOps \cup EBasic \cup EWhere
 EQuick == {Bin(op, a, C(2)) : op \in {"add", "floordiv", "lt"}} \cup {Bin(op, C(2), a) : op \in {"sub", "mod", "ge"}} \cup EBasic \cup EWhere
 ====
